@@ -1,5 +1,326 @@
-(* Proofs/Contracts.v — lemmas for C16 *)
+(* Proofs/Contracts.v — lemmas for C16: the factories preserve duplicate-free key lists
+   under unbounded nesting, every generated view passes the error-level metadata rules,
+   node views mirror processor views, and `valid` configurations generate. *)
 From Coq Require Import List String Ascii Bool Arith Lia.
 From SV Require Import Model.Contracts.
 Import ListNotations.
 Local Open Scope string_scope.
+
+(* ------------------------------------------------------------------ *)
+(* membership / duplicate-freeness                                      *)
+
+Lemma mem_In x l : mem x l = true <-> In x l.
+Proof.
+  unfold mem. rewrite existsb_exists. split.
+  - intros [y [Hy E]]. apply String.eqb_eq in E. subst; auto.
+  - intros H. exists x. split; auto. apply String.eqb_refl.
+Qed.
+
+Lemma mem_app x a b : mem x (a ++ b)%list = mem x a || mem x b.
+Proof. unfold mem. apply existsb_app. Qed.
+
+Lemma nodupb_app a b :
+  nodupb (a ++ b)%list = nodupb a && nodupb b && forallb (fun x => negb (mem x b)) a.
+Proof.
+  induction a as [|x a IH]; simpl.
+  - rewrite andb_true_r. reflexivity.
+  - rewrite IH, mem_app, negb_orb.
+    destruct (mem x a), (mem x b), (nodupb a), (nodupb b); simpl; auto.
+Qed.
+
+Lemma mem_filter x g l : mem x (filter g l) = true -> mem x l = true /\ g x = true.
+Proof.
+  rewrite !mem_In, filter_In. auto.
+Qed.
+
+Lemma nodupb_filter g l : nodupb l = true -> nodupb (filter g l) = true.
+Proof.
+  induction l as [|x l IH]; simpl; auto.
+  intros H. apply andb_true_iff in H as [H1 H2].
+  destruct (g x); simpl; auto.
+  rewrite IH by auto. rewrite andb_true_r.
+  destruct (mem x (filter g l)) eqn:E; auto.
+  apply mem_filter in E as [E _]. rewrite E in H1. discriminate.
+Qed.
+
+Lemma str_len_app a b : String.length (a ++ b) = String.length a + String.length b.
+Proof. induction a; simpl; auto. Qed.
+
+Lemma append_inj_r s : forall a b, a ++ s = b ++ s -> a = b.
+Proof.
+  induction a as [|c a IH]; intros [|d b] H; simpl in *; auto.
+  - exfalso. apply (f_equal String.length) in H. simpl in H. rewrite str_len_app in H. lia.
+  - exfalso. apply (f_equal String.length) in H. simpl in H. rewrite str_len_app in H. lia.
+  - injection H as -> H. f_equal. auto.
+Qed.
+
+Lemma values_key_inj a b : values_key a = values_key b -> a = b.
+Proof. apply append_inj_r. Qed.
+
+Lemma mem_map_values x l : mem (values_key x) (map values_key l) = mem x l.
+Proof.
+  induction l as [|y l IH]; simpl; auto. rewrite IH. f_equal.
+  destruct (String.eqb x y) eqn:E.
+  - apply String.eqb_eq in E. subst. apply String.eqb_refl.
+  - apply String.eqb_neq. intros H. apply values_key_inj in H. apply String.eqb_neq in E. auto.
+Qed.
+
+Lemma nodupb_map_values l : nodupb (map values_key l) = nodupb l.
+Proof. induction l as [|y l IH]; simpl; auto. rewrite IH, mem_map_values. reflexivity. Qed.
+
+Lemma vars_keys (vars : list (string * option string)) :
+  map (fun v => values_key (fst v)) vars = map values_key (map fst vars).
+Proof. rewrite map_map. reflexivity. Qed.
+
+Lemma nodupb_add_key k l : nodupb l = true -> nodupb (add_key k l) = true.
+Proof.
+  intros H. unfold add_key. destruct (mem k l) eqn:E; auto.
+  rewrite nodupb_app, H. simpl.
+  apply forallb_forall. intros x Hx. simpl. rewrite orb_false_r.
+  destruct (String.eqb x k) eqn:E2; auto. apply String.eqb_eq in E2. subst.
+  apply mem_In in Hx. rewrite Hx in E. discriminate.
+Qed.
+
+Lemma sweep_created_nodup f vs base :
+  nodupb vs = true -> nodupb base = true ->
+  (sweep_dedup f = true \/ forallb (fun x => negb (mem x base)) vs = true) ->
+  nodupb (sweep_created f vs base) = true.
+Proof.
+  intros Hv Hb H. unfold sweep_created. rewrite nodupb_app, Hv. simpl.
+  destruct (sweep_dedup f) eqn:D.
+  - rewrite nodupb_filter by auto. simpl.
+    apply forallb_forall. intros x Hx.
+    destruct (mem x (filter (fun k => negb (mem k vs)) base)) eqn:E; auto.
+    apply mem_filter in E as [_ E]. apply mem_In in Hx. rewrite Hx in E. discriminate.
+  - destruct H as [H|H]; [discriminate|]. rewrite Hb, H. reflexivity.
+Qed.
+
+(* ------------------------------------------------------------------ *)
+(* invariant of the processor-level factories, by induction on nesting  *)
+
+Definition keys_ok (p : pinfo) : Prop := nodupb (pcreated p) = true /\ nodupb (psupp p) = true.
+
+Lemma sweep_of_some f p vars bound coll q :
+  sweep_of f p vars bound coll = Some q ->
+  nodupb (map fst vars) = true /\
+  ( (pk p = KDataSource /\ pk q = KDataSource /\ pcreated q = map (fun v => values_key (fst v)) vars)
+    \/ ((pk p = KDataOperation \/ pk p = KDataProbe) /\ pk q = pk p /\
+        pcreated q = sweep_created f (map (fun v => values_key (fst v)) vars) (pcreated p)) )
+  /\ psupp q = [] /\ pin q = (match pk p with KDataSource => "" | _ => pin p end)
+  /\ pparams q = ext_params bound (pparams p) (ctx_keys vars).
+Proof.
+  unfold sweep_of.
+  destruct (is_nil vars || negb (nodupb (map fst vars))) eqn:E1; [discriminate|].
+  apply orb_false_iff in E1 as [_ E1]. apply negb_false_iff in E1.
+  destruct (negb (forallb _ bound)); [discriminate|].
+  destruct (negb (nodupb _)); [discriminate|].
+  destruct (pk p) eqn:K; destruct coll as [[cn [|]]|]; try discriminate;
+    intros H; injection H as <-; simpl; repeat split; auto.
+Qed.
+
+Lemma proc_inv f : forall c p,
+  bases_ok c = true -> (sweep_dedup f = true \/ fresh f c = true) ->
+  proc f c = Some p -> keys_ok p.
+Proof.
+  induction c as [b|c IH coll|c IH vars bound coll|c IH k|a b|a|out holes]; intros p B F P; simpl in *.
+  - injection P as <-. apply andb_true_iff in B. exact B.
+  - destruct (proc f c) as [p'|] eqn:P'; [|discriminate].
+    destruct (IH p' B F eq_refl) as [I1 I2].
+    unfold slice_of in P. destruct (pk p'); try discriminate.
+    + destruct (String.eqb (pin p') (pout p')); [|discriminate]. injection P as <-. split; auto.
+    + injection P as <-. split; auto.
+  - destruct (proc f c) as [p'|] eqn:P'; [|discriminate].
+    assert (F' : sweep_dedup f = true \/ fresh f c = true).
+    { destruct F as [F|F]; auto. apply andb_true_iff in F as [F _]. auto. }
+    destruct (IH p' B F' eq_refl) as [I1 I2].
+    apply sweep_of_some in P as (Hv & Hc & Hs & _).
+    split; [|rewrite Hs; reflexivity].
+    destruct Hc as [(_ & _ & Hc)|(_ & _ & Hc)]; rewrite Hc.
+    + rewrite vars_keys, nodupb_map_values. exact Hv.
+    + apply sweep_created_nodup; auto.
+      * rewrite vars_keys, nodupb_map_values. exact Hv.
+      * destruct F as [F|F]; auto. right. apply andb_true_iff in F as [_ F].
+        rewrite forallb_forall in *. intros x Hx. apply in_map_iff in Hx as [v [<- Hv']]. auto.
+  - discriminate.
+  - destruct (valid_key a && valid_key b); [|discriminate]. injection P as <-. split; reflexivity.
+  - destruct (valid_key a); [|discriminate]. injection P as <-. split; reflexivity.
+  - destruct (valid_key out && negb (is_nil holes) && forallb valid_placeholder holes); [|discriminate].
+    injection P as <-. split; reflexivity.
+Qed.
+
+(* ------------------------------------------------------------------ *)
+(* every generated view passes the error-level metadata rules           *)
+
+Lemma bases_ok_strip c : bases_ok (fst (strip_key c)) = bases_ok c.
+Proof. destruct c; reflexivity. Qed.
+Lemma fresh_strip f c : fresh f (fst (strip_key c)) = fresh f c.
+Proof. destruct c; reflexivity. Qed.
+
+Lemma probe_created_nodup f p k : nodupb (pcreated p) = true -> nodupb (probe_node_created f p k) = true.
+Proof.
+  intros H. unfold probe_node_created. destruct (probe_mirror f); [apply nodupb_add_key; auto|reflexivity].
+Qed.
+
+Ltac crunch_views K I1 I2 :=
+  unfold node_view, proc_view, pre_entry, run_rules, spec_rules, errors; rewrite ?K;
+  match goal with |- context [ppre ?q] => destruct (ppre q) | _ => idtac end;
+  cbn; rewrite ?I1, ?I2, ?String.eqb_refl; cbn; try reflexivity.
+
+Theorem generated_pass f c n p :
+  bases_ok c = true -> (sweep_dedup f = true \/ fresh f c = true) ->
+  gen (spec_tables f) c = Some (n, p) ->
+  errors (run_rules spec_rules n) = [] /\ errors (run_rules spec_rules p) = [].
+Proof.
+  intros B F. rewrite <- bases_ok_strip in B. rewrite <- fresh_strip in F.
+  unfold gen, node_of. destruct (strip_key c) as [c0 key]. simpl in B, F. simpl fst. simpl snd.
+  destruct (proc (tflags (spec_tables f)) c0) as [p0|] eqn:P; [|discriminate].
+  simpl in P. destruct (proc_inv f c0 p0 B F P) as [I1 I2].
+  simpl. destruct (pk p0) eqn:K; simpl; destruct key as [k|]; try discriminate;
+    try (destruct (nonblank k); [|discriminate]);
+    intros H; injection H as <- <-; split;
+    try (crunch_views K I1 I2).
+  - rewrite (probe_created_nodup f p0 k I1). reflexivity.
+  - destruct (existsb _ (pcreated p0)); reflexivity.
+  - destruct (existsb _ (pcreated p0)); reflexivity.
+Qed.
+
+(* with the current un-deduplicated sweep keys the full statement fails: *)
+Definition op_FF : pinfo := mkP KDataOperation "Op" "F" "F" [("factor", false)] [] [] [] false.
+Definition sweep_twice : cfg :=
+  Sweep (Sweep (Base op_FF) [("t", None)] ["factor"] (Some ("C", true))) [("t", None)] [] (Some ("C", true)).
+
+Theorem generated_pass_refuted f :
+  sweep_dedup f = false ->
+  exists c n p, bases_ok c = true /\ valid c = true /\ gen (spec_tables f) c = Some (n, p) /\
+                errors (run_rules spec_rules n) <> [].
+Proof.
+  intros D. destruct f as [d m]. simpl in D. subst d.
+  exists sweep_twice. eexists. eexists. split; [reflexivity|]. split; [reflexivity|].
+  split; [reflexivity|]. vm_compute. discriminate.
+Qed.
+
+(* ------------------------------------------------------------------ *)
+(* node views mirror processor views                                    *)
+
+Theorem wrapper_mirrors_when f c n p :
+  gen (spec_tables f) c = Some (n, p) ->
+  exists p0, proc f (fst (strip_key c)) = Some p0 /\
+    ((probe_mirror f = true \/ pk p0 <> KDataProbe \/ pcreated p0 = []) ->
+     mirrors (pk p0) (snd (strip_key c)) n p).
+Proof.
+  unfold gen, node_of. destruct (strip_key c) as [c0 key]. simpl.
+  destruct (proc f c0) as [p0|] eqn:P; [|discriminate].
+  intros H. exists p0. split; auto. revert H.
+  destruct (pk p0) eqn:K; simpl; destruct key as [k|]; try discriminate;
+    try (destruct (nonblank k); [|discriminate]);
+    intros H; injection H as <- <-; intros M; unfold mirrors, node_view, proc_view; rewrite ?K; simpl;
+    try (repeat split; reflexivity).
+  repeat split. exists k, (pcreated p0). repeat split.
+  unfold probe_node_created. destruct M as [M|[M|M]].
+  - rewrite M. reflexivity.
+  - congruence.
+  - rewrite M. destruct (probe_mirror f); reflexivity.
+Qed.
+
+Definition probe_F : pinfo := mkP KDataProbe "Probe" "F" "" [] [] [] [] false.
+Definition swept_probe : cfg := WithContextKey (Sweep (Base probe_F) [("t", None)] [] None) "k".
+
+Theorem wrapper_mirrors_refuted f :
+  probe_mirror f = false ->
+  exists c n p p0, valid c = true /\ gen (spec_tables f) c = Some (n, p) /\
+    proc f (fst (strip_key c)) = Some p0 /\ ~ mirrors (pk p0) (snd (strip_key c)) n p.
+Proof.
+  intros M. destruct f as [d m]. simpl in M. subst m.
+  exists swept_probe. eexists. eexists. eexists.
+  split; [reflexivity|]. split; [reflexivity|]. split; [reflexivity|].
+  simpl. intros (_ & _ & k & l & Hk & Hl & Hn).
+  injection Hk as <-. unfold sweep_created in Hl. simpl in Hl.
+  destruct d; simpl in Hl; injection Hl as <-; vm_compute in Hn; discriminate.
+Qed.
+
+(* ------------------------------------------------------------------ *)
+(* valid configurations generate                                        *)
+
+Lemma validp_proc f : forall c, validp c = true ->
+  exists p, proc f c = Some p /\ pk p = ckind c /\ pin p = cin c /\ pout p = cout c /\ pparams p = cparams c.
+Proof.
+  induction c as [b|c IH coll|c IH vars bound coll|c IH k|a b|a|out holes]; intros V; simpl in *.
+  - exists b. auto.
+  - apply andb_true_iff in V as [V1 V2]. destruct (IH V1) as (p' & P & K & I & O & Q).
+    rewrite P. unfold slice_of. rewrite K, I, O.
+    destruct (ckind c); try discriminate.
+    + rewrite V2. eexists. repeat split; simpl; auto.
+    + eexists. repeat split; simpl; auto.
+  - repeat (apply andb_true_iff in V as [V ?]).
+    destruct (IH V) as (p' & P & K & I & O & Q).
+    rewrite P. unfold sweep_of. rewrite Q, K.
+    match goal with H : negb (is_nil vars) = true |- _ => apply negb_true_iff in H; rewrite H end.
+    match goal with H : nodupb (map fst vars) = true |- _ => rewrite H end.
+    match goal with H : forallb _ bound = true |- _ => rewrite H end.
+    match goal with H : nodupb (map fst (ext_params _ _ _)) = true |- _ => rewrite H end.
+    simpl.
+    destruct (ckind c); destruct coll as [[cn [|]]|]; try discriminate;
+      eexists; repeat split; simpl; auto.
+  - discriminate.
+  - rewrite V. eexists. repeat split; reflexivity.
+  - rewrite V. eexists. repeat split; reflexivity.
+  - rewrite V. eexists. repeat split; reflexivity.
+Qed.
+
+Lemma node_of_total f p key :
+  key_ok (pk p) key = true -> exists n q, node_of (spec_tables f) p key = Some (n, q).
+Proof.
+  unfold node_of. simpl. destruct (pk p); simpl; destruct key as [k|]; simpl; try discriminate; eauto.
+  intros ->. eauto.
+Qed.
+
+Lemma node_of_some f p key n q : node_of (spec_tables f) p key = Some (n, q) -> key_ok (pk p) key = true.
+Proof.
+  unfold node_of. simpl. destruct (pk p); simpl; destruct key as [k|]; simpl; try discriminate; auto.
+  destruct (nonblank k); [auto|discriminate].
+Qed.
+
+Theorem gen_total_on_valid f c :
+  valid c = true -> exists n p, gen (spec_tables f) c = Some (n, p).
+Proof.
+  unfold valid, gen. intros V. apply andb_true_iff in V as [V1 V2].
+  destruct (validp_proc f _ V1) as (p0 & P & K & _). simpl tflags. rewrite P.
+  apply node_of_total. rewrite K. exact V2.
+Qed.
+
+(* the converse: whatever generates was valid — `valid` is exactly the domain of `gen` *)
+Lemma proc_validp f : forall c p, proc f c = Some p ->
+  validp c = true /\ pk p = ckind c /\ pin p = cin c /\ pout p = cout c /\ pparams p = cparams c.
+Proof.
+  induction c as [b|c IH coll|c IH vars bound coll|c IH k|a b|a|out holes]; intros p P; simpl in *.
+  - injection P as <-. auto.
+  - destruct (proc f c) as [p'|] eqn:P'; [|discriminate].
+    destruct (IH p' eq_refl) as (V & K & I & O & Q). rewrite V. simpl.
+    unfold slice_of in P. rewrite <- K, <- I, <- O.
+    destruct (pk p') eqn:K'; try discriminate.
+    + destruct (String.eqb (pin p') (pout p')) eqn:E; [|discriminate]. injection P as <-. simpl. auto.
+    + injection P as <-. simpl. auto.
+  - destruct (proc f c) as [p'|] eqn:P'; [|discriminate].
+    destruct (IH p' eq_refl) as (V & K & I & O & Q). rewrite V. simpl.
+    unfold sweep_of in P. rewrite <- Q, <- K, <- I.
+    destruct (is_nil vars || negb (nodupb (map fst vars))) eqn:E1; [discriminate|].
+    apply orb_false_iff in E1 as [E1a E1b]. rewrite E1a. apply negb_false_iff in E1b. rewrite E1b.
+    destruct (forallb (fun b => mem b (map fst (pparams p'))) bound) eqn:E2; [|discriminate].
+    destruct (nodupb (map fst (ext_params bound (pparams p') (ctx_keys vars)))) eqn:E3; [|discriminate].
+    simpl in P. simpl.
+    destruct (pk p') eqn:K'; destruct coll as [[cn [|]]|]; try discriminate;
+      injection P as <-; simpl; auto.
+  - discriminate.
+  - destruct (valid_key a && valid_key b); [|discriminate]. injection P as <-. simpl. auto.
+  - destruct (valid_key a); [|discriminate]. injection P as <-. simpl. auto.
+  - destruct (valid_key out && negb (is_nil holes) && forallb valid_placeholder holes); [|discriminate].
+    injection P as <-. simpl. auto.
+Qed.
+
+Theorem gen_only_on_valid f c n p : gen (spec_tables f) c = Some (n, p) -> valid c = true.
+Proof.
+  unfold valid, gen. simpl tflags.
+  destruct (proc f (fst (strip_key c))) as [p0|] eqn:P; [|discriminate].
+  destruct (proc_validp f _ p0 P) as (V & K & _). intros H.
+  apply node_of_some in H. rewrite V, <- K, H. reflexivity.
+Qed.
